@@ -955,7 +955,10 @@ fn m_impl_extra_required_arg(c: &mut Choices, d: &mut Document) -> &'static str 
         1 => Type::named("String").list().non_null(),
         _ => Type::named("MIn").non_null(),
     };
-    ty_at_mut(d, di).fields[fi].args.push(ivd("mreq", ty));
+    // anywhere among the arguments: before, between or after the interface's own
+    let args = &mut ty_at_mut(d, di).fields[fi].args;
+    let at = c.choose(args.len() + 1);
+    args.insert(at, ivd("mreq", ty));
     "impl.extraRequiredArgument"
 }
 
@@ -1499,8 +1502,21 @@ fn m_neutral(c: &mut Choices, d: &mut Document) -> &'static str {
         }
         7 => {
             // implementer gains an optional additional argument / a narrower type
-            if let Some((di, fi)) = find_field(d, "MObj", "mv") {
-                ty_at_mut(d, di).fields[fi].args.push(ivd("mopt", Type::named("MIn")));
+            // (at any position; also on a generated implementing field when there is one)
+            if c.coin() {
+                if let Some((t, _i, f)) = pick_impl_field(c, d, false) {
+                    if let Some((di, fi)) = find_field(d, &t, &f) {
+                        let args = &mut ty_at_mut(d, di).fields[fi].args;
+                        if !args.iter().any(|a| a.name == "mopt") {
+                            let at = c.choose(args.len() + 1);
+                            args.insert(at, ivd("mopt", Type::named("Int")));
+                        }
+                    }
+                }
+            } else if let Some((di, fi)) = find_field(d, "MObj", "mv") {
+                let args = &mut ty_at_mut(d, di).fields[fi].args;
+                let at = c.choose(args.len() + 1);
+                args.insert(at, ivd("mopt", Type::named("MIn")));
             }
             "neutral.implementer.optionalArgument"
         }
